@@ -1,34 +1,70 @@
 (* Correspondence harness for C15, evaluated inside Coq by vm_compute.
    Depends on Model/ only. Verdict bits per case:
-     1  the model disagrees with the implementation (MatchesOrParentMatches,
-        MatchesForMutagen, the scanned snapshot, or ReifyPhantomDirectories);
+     1  the model disagrees with the implementation (pattern preprocessing,
+        MatchesOrParentMatches, MatchesForMutagen, the scanned snapshot, or
+        ReifyPhantomDirectories);
      2  the reified snapshot of the implementation departs from Docker's
-        build-context semantics ([check_C15]);
+        build-context semantics ([check_C15], with the reference patterns
+        obtained from the user's texts by Docker's own reading [docker_prep]),
+        or an accepted pattern is read differently from Docker;
      4  (only with 2, never with 1) every departure lies in the class
         [known_C15] AND the implementation's outputs are exactly what the model
         predicts - so the departure is the known one and nothing else;
      8  the harness fed an ill-formed input. *)
 From Coq Require Import List Bool Arith String Ascii.
 Import ListNotations.
-From Mv Require Import Common.Bytes Model.Entry Model.IgnoreScan Model.IgnoreDocker.
+From Mv Require Import Common.Bytes Model.Entry Model.IgnoreScan Model.IgnoreMutagen Model.IgnoreDocker.
 Open Scope list_scope.
+
+(* One pattern as the harness reports it: the user's text, what the real
+   preprocessing made of it (Pattern.Exclusion, Pattern.String of the real
+   matcher), the reference reading the Go harness used to build the match table
+   (must equal [docker_prep], else bit 8), and the paths the reference pattern
+   matches by itself according to the real per-pattern matcher. *)
+Record rawpat := {
+  rw_raw : string;
+  rw_impl : bool * string;
+  rw_ref : bool * string;
+  rw_hits : list rpath
+}.
+Definition Dr (raw : string) (ie : bool) (it : string) (re : bool) (rt : string)
+  (hits : list string) : rawpat :=
+  {| rw_raw := raw; rw_impl := (ie, it); rw_ref := (re, rt); rw_hits := map rp_of hits |}.
+
+Definition prep_eqb (a : option (bool * str)) (b : option (bool * string)) : bool :=
+  match a, b with
+  | None, None => true
+  | Some (e, t), Some (e', t') => Bool.eqb e e' && String.eqb (string_of_list_ascii t) t'
+  | _, _ => false
+  end.
+
+(* the reference pattern: Docker's reading of the user's text *)
+Definition to_dpat (r : rawpat) : option dpat :=
+  match docker_prep (str_of (rw_raw r)) with
+  | Some (e, t) => Some {| dexcl := e; dtext := string_of_list_ascii t; dhits := rw_hits r |}
+  | None => None
+  end.
+Definition ref_consistent (r : rawpat) : bool :=
+  prep_eqb (docker_prep (str_of (rw_raw r))) (Some (rw_ref r)).
+Definition impl_prep_ok (r : rawpat) : bool :=
+  prep_eqb (mutagen_prep (str_of (rw_raw r))) (Some (rw_impl r)).
 
 Inductive dcase :=
 (* one path against one pattern list: MatchesOrParentMatches(path) and
    MatchesForMutagen(path, dir) of the real matcher *)
-| DQuery (pats : list dpat) (path : string) (dir : bool) (mopm_res : bool)
+| DQuery (pats : list rawpat) (path : string) (dir : bool) (mopm_res : bool)
          (mfm_res : status * bool)
 (* core.Scan of a real tree with docker.NewIgnorer, then
    ReifyPhantomDirectories(anc, snapshot, beta) with beta = nil or a copy of
    the snapshot: raw snapshot, reified alpha, directory counts *)
-| DScan (pats : list dpat) (tree : fnode) (anc : oentry) (beta_same : bool)
-        (snap : oentry) (reified_snap : oentry) (ca cb : nat).
+| DScan (pats : list rawpat) (tree : fnode) (anc : oentry) (beta_same : bool)
+        (snap : oentry) (reified_snap : oentry) (ca cb : nat)
+(* the real preprocessing of one user pattern: None = rejected *)
+| DPrep (raw : string) (impl : option (bool * string)).
 
-(* aliases printed by the Go harness; hits arrive as path strings *)
-Definition Dp (e : bool) (t : string) (hits : list string) : dpat :=
-  {| dexcl := e; dtext := t; dhits := map rp_of hits |}.
 Definition Dq := DQuery.
 Definition Ds := DScan.
+Definition Dpp := DPrep.
 
 Definition bit (b : bool) (v : nat) : nat := if b then v else 0.
 
@@ -37,26 +73,44 @@ Definition wf_rp (q : rpath) : bool :=
 
 Definition dverdict (c : dcase) : nat :=
   match c with
-  | DQuery pats path dir mo mf =>
+  | DQuery rs path dir mo mf =>
     let q := rp_of path in
-    if negb (wf_rp q) then 8 else
-    let mo' := mopm dexcl dmatch pats q in
-    let mf' := mfm dexcl dtext dmatch pats q dir in
-    bit (negb (Bool.eqb mo mo' && status_eqb (fst mf) (fst mf') && Bool.eqb (snd mf) (snd mf'))) 1
-  | DScan pats tree anc beta_same snap rsnap ca cb =>
-    if negb (wf_fnode tree && wf true anc) then 8 else
-    match snap, rsnap with
-    | Some s, Some rs =>
-      let s' := snapshot (dock_ignorer dexcl dtext dmatch pats) tree in
-      let r := reify anc (Some s') (if beta_same then Some s' else None) in
-      let bad := negb (check_C15 pats tree anc rs) in
-      let agrees := entry_eqb s' s && oentry_eqb (r_a r) (Some rs)
-                    && Nat.eqb (r_ca r) ca && Nat.eqb (r_cb r) cb && negb (r_oof r) in
-      bit (negb agrees) 1
-      + bit bad 2
-      + bit (bad && agrees && c15_all_known pats tree anc rs) 4
-    | _, _ => 1
+    match all_some (map to_dpat rs) with
+    | None => 8
+    | Some pats =>
+      if negb (wf_rp q && forallb ref_consistent rs) then 8 else
+      let mo' := mopm dexcl dmatch pats q in
+      let mf' := mfm dexcl dtext dmatch pats q dir in
+      bit (negb (Bool.eqb mo mo' && status_eqb (fst mf) (fst mf') && Bool.eqb (snd mf) (snd mf')
+                 && forallb impl_prep_ok rs)) 1
     end
+  | DScan rs tree anc beta_same snap rsnap ca cb =>
+    match all_some (map to_dpat rs) with
+    | None => 8
+    | Some pats =>
+      if negb (wf_fnode tree && wf true anc && forallb ref_consistent rs) then 8 else
+      match snap, rsnap with
+      | Some s, Some rs' =>
+        let s' := snapshot (dock_ignorer dexcl dtext dmatch pats) tree in
+        let r := reify anc (Some s') (if beta_same then Some s' else None) in
+        let bad := negb (check_C15 pats tree anc rs') in
+        let agrees := entry_eqb s' s && oentry_eqb (r_a r) (Some rs')
+                      && Nat.eqb (r_ca r) ca && Nat.eqb (r_cb r) cb && negb (r_oof r)
+                      && forallb impl_prep_ok rs in
+        bit (negb agrees) 1
+        + bit bad 2
+        + bit (bad && agrees && c15_all_known pats tree anc rs') 4
+      | _, _ => 1
+      end
+    end
+  | DPrep raw impl =>
+    let m := mutagen_prep (str_of raw) in
+    let d := docker_prep (str_of raw) in
+    bit (negb (prep_eqb m impl)) 1
+    + bit (match impl, d with
+           | Some _, Some _ => negb (prep_eqb d impl)   (* accepted, but read differently from Docker *)
+           | _, _ => false
+           end) 2
   end.
 
 Fixpoint ignd_failures (i : nat) (cs : list dcase) : list (nat * nat) :=
